@@ -661,7 +661,7 @@ package pokertable
 //@ func (*tableEngine).batchRemovePlayers
 //@   property C01 C03
 //@   returns err
-//@   config M 2..10 : te.table.Meta.TableMaxSeatCount = M, te.sm.MaxSeat = M, len(te.sm.SeatData) = M
+//@   config M 2..10 quick 2..5 : te.table.Meta.TableMaxSeatCount = M, te.sm.MaxSeat = M, len(te.sm.SeatData) = M
 //@   requires TableWF(te) && Coupled(te) && HandShape(te) && 0 <= len(playerIDs) && len(playerIDs) <= MaxSeats(te)
 //@   modifies St(te).PlayerStates, St(te).SeatMap, St(te).GamePlayerIndexes, te.sm.SeatData[all]
 //@   ensures inv: TableWF(te) && Coupled(te)
@@ -677,7 +677,7 @@ package pokertable
 //@ func (*tableEngine).PlayersLeave
 //@   property C01 C03 C16
 //@   returns err
-//@   config M 2..10 : te.table.Meta.TableMaxSeatCount = M, te.sm.MaxSeat = M, len(te.sm.SeatData) = M
+//@   config M 2..10 quick 2..5 : te.table.Meta.TableMaxSeatCount = M, te.sm.MaxSeat = M, len(te.sm.SeatData) = M
 //@   requires TableWF(te) && Coupled(te) && HandShape(te) && 0 <= len(playerIDs) && len(playerIDs) <= MaxSeats(te) && !held(te.lock)
 //@   guarded te.lock : "pokertable.tableEngine.table", "pokertable.tableEngine.sm", "pokertable.Table.", "pokertable.TableState.", "pokertable.TablePlayerState."
 //@   modifies St(te).PlayerStates, St(te).SeatMap, St(te).GamePlayerIndexes, te.sm.SeatData[all], te.table.UpdateAt, te.table.UpdateSerial, log
@@ -842,7 +842,7 @@ package pokertable
 //@ func (*tableEngine).continueGame
 //@   property C05 C06 C07 C08 C14 C15
 //@   returns err
-//@   config M 2..10 : te.table.Meta.TableMaxSeatCount = M, te.sm.MaxSeat = M, len(te.sm.SeatData) = M
+//@   config M 2..10 quick 2..4 : te.table.Meta.TableMaxSeatCount = M, te.sm.MaxSeat = M, len(te.sm.SeatData) = M
 //@   requires TableWF(te) && Coupled(te) && St(te).BlindState != nil && te.options != nil
 //@   requires 0 <= len(alivePlayers) && len(alivePlayers) <= 10 && forall(i, 0, 10, i < len(alivePlayers) ==> alivePlayers[i] != nil)
 //@   requires forall(i, 0, 10, forall(j, 0, 10, i < j && j < len(alivePlayers) ==> alivePlayers[i].PlayerID != alivePlayers[j].PlayerID))
@@ -934,7 +934,7 @@ package pokertable
 //@ func (*tableEngine).openGame
 //@   property C05 C07 C12
 //@   returns nt, err
-//@   config M 2..10 : te.table.Meta.TableMaxSeatCount = M, te.sm.MaxSeat = M, len(te.sm.SeatData) = M
+//@   config M 2..10 quick 2..5 : te.table.Meta.TableMaxSeatCount = M, te.sm.MaxSeat = M, len(te.sm.SeatData) = M
 //@   requires TableWF(te) && Coupled(te) && oldTable == te.table && St(te).BlindState != nil && St(te).GameState == nil
 //@   requires te.table.Meta.Rule == CompetitionRule_Default && te.sm.Rule == "default"     // default-rule tables; short deck is not covered by this contract
 //@   modifies te.sm.DealerSeatID, te.sm.SBSeatID, te.sm.BBSeatID, te.sm.IsInit, forall(s, 0, M, te.sm.SeatData[s].IsBetweenDealerBB)
@@ -1075,7 +1075,7 @@ package pokertable
 //@ func (*tableEngine).tableGameOpen
 //@   property C07 C08 C16
 //@   returns err
-//@   config M 2..10 : te.table.Meta.TableMaxSeatCount = M, te.sm.MaxSeat = M, len(te.sm.SeatData) = M
+//@   config M 2..10 quick 2..4 : te.table.Meta.TableMaxSeatCount = M, te.sm.MaxSeat = M, len(te.sm.SeatData) = M
 //@   requires TableWF(te) && Coupled(te) && St(te).BlindState != nil && te.gameBackend != nil && !held(te.lock)
 //@   requires te.table.Meta.Rule == CompetitionRule_Default && te.sm.Rule == "default"     // default-rule tables
 //@   guarded te.lock : "pokertable.tableEngine.table", "pokertable.tableEngine.game", "pokertable.tableEngine.sm", "pokertable.Table.", "pokertable.TableState.", "pokertable.TablePlayerState."
